@@ -15,6 +15,7 @@ import (
 
 	"github.com/LemoFoundationLtd/lemochain-core/chain/types"
 	"github.com/LemoFoundationLtd/lemochain-core/common"
+	"github.com/LemoFoundationLtd/lemochain-core/common/log"
 
 	"verif/evmmon"
 	"verif/fx"
@@ -23,6 +24,19 @@ import (
 )
 
 func batches(tier string) int { return 16 }
+
+// emit reports the first violation of every class in this batch (the driver keeps one
+// witness per class; the per-batch cap of the protocol must not hide later, different classes).
+var emitted = map[string]bool{}
+
+func emit(c *run.Ctx, class, msg string, wit interface{}) {
+	if emitted[class] {
+		c.Stat("violations_repeated", 1)
+		return
+	}
+	emitted[class] = true
+	c.Violation(class, msg, wit)
+}
 
 func gasClass(g uint64) string {
 	switch {
@@ -91,7 +105,7 @@ func bucket(n int64) string {
 func check(c *run.Ctx, b *evmmon.Base, cs *evmmon.Case) {
 	c.WAL(cs)
 	viol := func(class, msg string) {
-		c.Violation("C16/"+class, msg+" -- "+cs.String(), cs)
+		emit(c, "C16/"+class, msg+" -- "+cs.String(), cs)
 	}
 	r1, statics := b.RunCase(cs, evmmon.RunOpts{Shadow: true, StaticMarks: true})
 	c.Stat("evm_runs", 1)
@@ -174,7 +188,11 @@ func check(c *run.Ctx, b *evmmon.Base, cs *evmmon.Case) {
 	if failed {
 		c.Stat("failed_calls_checked", 1)
 		seen := map[string]bool{}
-		for _, d := range fx.Diff(r1.Before, r1.After, 12) {
+		var top []string
+		if len(r1.Px.Reports) == 0 { // else the unfaithful rollback is reported with its mechanism below
+			top = fx.Diff(r1.Before, r1.After, 12)
+		}
+		for _, d := range top {
 			k := evmmon.FieldKind(evmmon.DiffField(d))
 			if !seen[k] {
 				seen[k] = true
@@ -208,18 +226,20 @@ func check(c *run.Ctx, b *evmmon.Base, cs *evmmon.Case) {
 			}
 		}
 	}
-	// nested forms of (4) and (5)
+	// (4) at every frame: each RevertToSnapshot the EVM issues belongs to a call that failed; the
+	// state must be what it was when that frame took its snapshot
 	for _, rep := range r1.Px.Reports {
 		seen := map[string]bool{}
 		for _, d := range rep.Diff {
-			k := evmmon.FieldKind(evmmon.DiffField(d))
+			f := evmmon.DiffField(d)
+			k := evmmon.FieldKind(f) + ":after-" + evmmon.OpKind(f, rep.Undone)
 			if !seen[k] {
 				seen[k] = true
-				viol("failed-call-changed-state:"+k+":nested", fmt.Sprintf("an inner call failed and was rolled back (nesting %d, undone %s) but %s", rep.Live, undoneTypes(rep.Undone), d))
+				viol("failed-call-changed-state:"+k, fmt.Sprintf("a call failed and was rolled back (nesting %d, undone %s) but %s", rep.Live, undoneTypes(rep.Undone), d))
 			}
 		}
 		if rep.JLenGot != rep.JLenWant {
-			viol("failed-call-changed-state:journal:nested", fmt.Sprintf("journal length %d after an inner rollback, %d when the frame started", rep.JLenGot, rep.JLenWant))
+			viol("failed-call-changed-state:journal-length", fmt.Sprintf("journal length %d after a rollback, %d when the frame started", rep.JLenGot, rep.JLenWant))
 		}
 	}
 	for _, s := range statics {
@@ -319,25 +339,37 @@ func endToEnd(c *run.Ctx, b *evmmon.Base, nBlocks int) {
 		}
 		blk := res.Block
 		if res2, err := b.N.Mine(cl.Head, t, scn.Txs(cands), ""); err != nil || res2.Block.Hash() != blk.Hash() {
-			c.Violation("C16/nondeterministic:block", fmt.Sprintf("mining the same contract transactions twice gives different blocks (err %v)", err), cl.Witness(t, cands, "e2e"))
+			emit(c, "C16/nondeterministic:block", fmt.Sprintf("mining the same contract transactions twice gives different blocks (err %v)", err), cl.Witness(t, cands, "e2e"))
 		}
 		var sum uint64
 		for _, tx := range blk.Txs {
 			sum += tx.GasUsed()
 			c.Stat("e2e_txs", 1)
 			if tx.GasUsed() > tx.GasLimit() {
-				c.Violation("C16/gas-exceeds-supplied:tx-gas-used", fmt.Sprintf("tx gas used %d > gas limit %d", tx.GasUsed(), tx.GasLimit()), cl.Witness(t, cands, "e2e"))
+				emit(c, "C16/gas-exceeds-supplied:tx-gas-used", fmt.Sprintf("tx gas used %d > gas limit %d", tx.GasUsed(), tx.GasLimit()), cl.Witness(t, cands, "e2e"))
 			}
 		}
 		if sum != blk.GasUsed() || blk.GasUsed() > blk.GasLimit() {
-			c.Violation("C16/gas-exceeds-supplied:block-gas-used", fmt.Sprintf("block gas used %d, sum of txs %d, limit %d", blk.GasUsed(), sum, blk.GasLimit()), cl.Witness(t, cands, "e2e"))
+			emit(c, "C16/gas-exceeds-supplied:block-gas-used", fmt.Sprintf("block gas used %d, sum of txs %d, limit %d", blk.GasUsed(), sum, blk.GasLimit()), cl.Witness(t, cands, "e2e"))
+		}
+		if os.Getenv("C16_DEBUG") != "" {
+			log.Setup(log.LevelDebug, false, true)
 		}
 		for i, e := range cl.InsertAll(blk) {
 			if e != nil {
 				c.Note(fmt.Sprintf("e2e: node %d rejects the block: %v (C01's concern)", i, e))
+				if os.Getenv("C16_DEBUG") != "" {
+					for _, cd := range cands {
+						fmt.Fprintf(os.Stderr, "cand %s included=%v data=%x\n", cd.Kind, scn.Included(blk)[cd.Tx.Hash()], cd.Tx.Data())
+					}
+					for _, l := range blk.ChangeLogs {
+						fmt.Fprintf(os.Stderr, "  %s\n", l.String())
+					}
+				}
 				return
 			}
 		}
+		fx.Quiet()
 		after := fx.ObserveAt(b.N.DB, blk.Hash(), uni, fx.ObsOpts{})
 		for _, tx := range blk.Txs {
 			w := want[tx.Hash()]
@@ -351,7 +383,7 @@ func endToEnd(c *run.Ctx, b *evmmon.Base, nBlocks int) {
 			max := new(big.Int).Mul(new(big.Int).SetUint64(w.limit), fx.GasPrice)
 			max.Add(max, w.amount)
 			if spent.Cmp(max) > 0 {
-				c.Violation("C16/gas-exceeds-supplied:tx-fee", fmt.Sprintf("sender paid %s, more than gasLimit*price+amount = %s", spent, max), cl.Witness(t, cands, "e2e"))
+				emit(c, "C16/gas-exceeds-supplied:tx-fee", fmt.Sprintf("sender paid %s, more than gasLimit*price+amount = %s", spent, max), cl.Witness(t, cands, "e2e"))
 			}
 			c.Stat("e2e_fee_checks", 1)
 		}
